@@ -16,6 +16,9 @@ public:
   virtual double get_delta() const = 0;
   /// @brief Update trust region and determine if step is taken.
   virtual bool step_and_update(const double rho) = 0;
+
+  /// @brief Restore the initial trust region (called at the start of every solve).
+  virtual void reset() {}
 };
 
 /**
@@ -39,6 +42,12 @@ public:
       m_reduce *= 2;
       return false;
     }
+  }
+
+  inline void reset() override
+  {
+    m_delta  = 10000;
+    m_reduce = 2;
   }
 
 private:
@@ -66,6 +75,8 @@ public:
       return false;
     }
   }
+
+  inline void reset() override { m_delta = 1000; }
 
 private:
   double m_delta{1000};
